@@ -47,15 +47,23 @@ impl WalPathManager {
         self.ensure_root()?;
         let file_name = now_millis_str();
         let path = self.root.join(&file_name);
+        #[cfg(walrus_verif)]
+        crate::wal::verif::io_event("create");
         let f = std::fs::File::create(&path)?;
+        #[cfg(walrus_verif)]
+        crate::wal::verif::io_event("set_len");
         f.set_len(MAX_FILE_SIZE)?;
 
         // Sync file metadata (size, etc.) to disk
+        #[cfg(walrus_verif)]
+        crate::wal::verif::io_event("fsync");
         f.sync_all()?;
 
         // CRITICAL for Linux: Sync parent directory to ensure directory entry is durable
         // Without this, the file might exist but not be visible in directory listing after crash
         let dir = std::fs::File::open(&self.root)?;
+        #[cfg(walrus_verif)]
+        crate::wal::verif::io_event("fsync");
         dir.sync_all()?;
 
         Ok(path.to_string_lossy().into_owned())
